@@ -44,7 +44,7 @@ LAYOUTS = {
 }
 
 
-def build(n_services, transport, internal=False, P=P, subsvc=False):
+def build(n_services, transport, internal=False, P=P, subsvc=False, snippets=False):
     Q = lambda n: f'.{P}.{n}'
     msgs = [message('Resp', [field('ok', 1, 'bool')])]
     lay = list(LAYOUTS)
@@ -98,7 +98,8 @@ def build(n_services, transport, internal=False, P=P, subsvc=False):
         fs.dependency.extend(desc.std_dep_names(['google.iam.v1.iam_policy_pb2']) + [f.name])
         files.append(fs)
         fixup_only['TrackLure'] = dict(layout='subpackage-service', fields=['depth', 'name'], required=['name'])
-    param = f'transport={transport},metadata,autogen-snippets=false'
+    # snippets=True: snippet generation stays enabled (the default), which runs the sample generator over the same API model first
+    param = f'transport={transport},metadata' + ('' if snippets else ',autogen-snippets=false')
     of = None
     listed = None
     if internal:
@@ -124,11 +125,14 @@ def variants():
     yield dict(services=1, transport='grpc+rest', internal=True, package='acme.meta')
     for tr in ('grpc', 'grpc+rest'):
         yield dict(services=1, transport=tr, internal=False, subsvc=True)
+    for tr in ('grpc', 'rest', 'grpc+rest'):
+        yield dict(services=2, transport=tr, internal=False, snippets=True)
+    yield dict(services=2, transport='grpc+rest', internal=True, snippets=True)
 
 
 def make_job(v):
     pkg = v.get('package', P)
-    req, of, table, listed, fixup_only = build(v['services'], v['transport'], v['internal'], pkg, v.get('subsvc', False))
+    req, of, table, listed, fixup_only = build(v['services'], v['transport'], v['internal'], pkg, v.get('subsvc', False), v.get('snippets', False))
     return dict(id=json.dumps(v, sort_keys=True), req=req.SerializeToString(), opt_files=of, probe='mc.probes.metadata',
                 keep=['*gapic_metadata.json', 'scripts/*.py'],
                 probe_args=dict(package=names.import_package(pkg)), _v=v, _table=table, _listed=listed, _pkg=pkg, _fixup_only=fixup_only)
